@@ -244,6 +244,11 @@ func (matrix *DenseInt64Matrix) Tip() {
   mn := len(matrix.values)
   visited := make([]bool, mn)
   k := 0
+  // number of rows of the storage layout
+  rows := matrix.rows
+  if matrix.transposed {
+    rows = matrix.cols
+  }
   for cycle := 1; cycle < mn; cycle++ {
     if visited[cycle] {
       continue
@@ -251,7 +256,7 @@ func (matrix *DenseInt64Matrix) Tip() {
     k = cycle
     for {
       if k != mn-1 {
-        k = matrix.rows*k % (mn-1)
+        k = rows*k % (mn-1)
       }
       visited[k] = true
       // swap
